@@ -153,7 +153,10 @@ func r05Expansive(c *core.Ctx, p *load.Program, eng *errEngine) {
 		if k, _ := eng.translator(fn); fn.Parent() != nil || k != "mount" {
 			continue
 		}
-		// must actually rebuild path fields from the old error (not just any (error,string,string) function)
+		// must actually rebuild path fields from the old error's paths (not just any (error,string,string) function)
+		if _, ei := eng.translator(fn); !rebuiltFromOld(fn, fn.Params[ei]) {
+			continue
+		}
 		rebuilds := false
 		ssax.InstrsDeep(fn, func(_ *ssa.Function, ins ssa.Instruction) {
 			if st, ok := ins.(*ssa.Store); ok {
